@@ -75,7 +75,7 @@ def gen_template(rnd, ti):
 
 def near_copy(rnd, tpl):
     m = copy.deepcopy(tpl)
-    kind = rnd.choice(['exact', 'exact', 'position-only', 'charge', 'mass', 'param', 'meta', 'node-order', 'key-swap', 'key-swap', 'atomid', 'define', 'nrexcl', 'param-eps', 'param-eps'])
+    kind = rnd.choice(['exact', 'exact', 'position-only', 'charge', 'mass', 'param', 'meta', 'node-order', 'key-swap', 'key-swap', 'atomid', 'define', 'nrexcl', 'param-eps', 'param-eps', 'inter-surplus', 'inter-surplus', 'inter-short', 'inter-order'])
     if kind == 'charge':
         a = rnd.choice(m['atoms'])[1]
         a['charge'] = a['charge'] + 0.5
@@ -91,6 +91,27 @@ def near_copy(rnd, tpl):
         it[2][1] = float(it[2][1]) * (1 + rnd.choice([1e-7, -3e-7, 2e-6]))
     elif kind == 'meta' and m['inter']:
         rnd.choice(m['inter'])[3]['ifdef'] = 'FLEX'
+    elif kind == 'inter-surplus' and m['inter']:
+        # the lists agree position by position, but this molecule has more entries at the end of a list that exists in both
+        # (one rubber band more in a nearly identical conformation)
+        t = rnd.choice(m['inter'])[0]
+        ar = {'bonds': 2, 'angles': 3, 'constraints': 2}[t]
+        for _ in range(rnd.randint(1, 2)):
+            m['inter'].append([t, rnd.sample([k for k, a in m['atoms']], ar), ['1', rnd.choice(['0.51', '0.29']), '700'], {}])
+    elif kind == 'inter-short' and m['inter']:
+        # ... or fewer: the last entry of a list with at least two entries is missing
+        types = [it[0] for it in m['inter']]
+        multi = [t for t in set(types) if types.count(t) >= 2]
+        if multi:
+            t = rnd.choice(sorted(multi))
+            last = max(i for i, it in enumerate(m['inter']) if it[0] == t)
+            del m['inter'][last]
+        else:
+            kind = 'exact'
+    elif kind == 'inter-order' and len(m['inter']) > 1:
+        # the same interactions listed in another order: the written files differ in line order only; sharing or not sharing are
+        # both fine as long as what is written under a shared name is the same set
+        rnd.shuffle(m['inter'])
     elif kind == 'node-order' and len(m['atoms']) > 1:
         i, j = rnd.sample(range(len(m['atoms'])), 2)
         m['atoms'][i], m['atoms'][j] = m['atoms'][j], m['atoms'][i]
